@@ -31,7 +31,7 @@ def check(index, ctx):
              "contracted against itself (J·Jᵀ, L2 norm, cdist p=2), carried linearly, or read for shape")
     ctx.rule("R3", "every deterministic aggregator's result is typed equivariant under column permutations and zero-column insertion")
     A, by_class = _agg.analysis(index)
-    base_w = index.get_class("torchjd.aggregation.bases._WeightedAggregator")
+    base_w = _agg.weighted_base(index)
     gram = _agg.classes_named(index, GRAMIAN, ctx, "R2")
     docs = documented_weighted(index)
     n_r1 = n_r2 = n_r3 = 0
